@@ -4,6 +4,7 @@ use crate::{
     model::{
         Namespace,
         field::as_field_name,
+        structures::xml_name_to_rust_name,
         helpers::{write_check_restrictions_footer, write_check_restrictions_header},
     },
     reader::WriteXml,
@@ -127,10 +128,10 @@ where
             if let Some(namespace) = header.in_namespace.as_ref() {
                 let mod_name = namespace.rust_mod_name.as_str();
                 // the struct of the element is emitted under its PascalCase name
-                let rust_type = to_pascal_case(rust_type);
+                let rust_type = xml_name_to_rust_name(rust_type);
                 writeln!(writer, "    pub {field_name}: Option<{mod_name}::{rust_type}>,",)?;
             } else {
-                let rust_type = to_pascal_case(rust_type);
+                let rust_type = xml_name_to_rust_name(rust_type);
                 writeln!(writer, "    pub {field_name}: Option<{rust_type}>",)?;
             }
         }
@@ -171,10 +172,10 @@ where
             writer,
             "    #[yaserde(prefix = \"{abbreviation}\", rename = {xml_name:?})]"
         )?;
-        let body = to_pascal_case(body);
+        let body = xml_name_to_rust_name(body);
         writeln!(writer, "    pub {body_field_name}: {mod_name}::{body},",)?;
     } else {
-        let body = to_pascal_case(body);
+        let body = xml_name_to_rust_name(body);
         writeln!(writer, "    #[yaserde(rename = {xml_name:?})]")?;
         writeln!(writer, "    pub {body_field_name}: {body},")?;
     }
